@@ -242,7 +242,8 @@ def c16(ctx):
     tf = os.path.join(ctx.scratch, "bomb.ndjson")
     with open(tf, "w") as f:
         for r in recs:
-            f.write(json.dumps({k: v for k, v in r.items() if k != "died"}) + "\n")
+            # TLC integers are 32-bit: a limit of 2^32-1 is written as 2^31-1 (both mean "larger than any input here")
+            f.write(json.dumps({k: (min(v, 2147483647) if k == "limit" else v) for k, v in r.items() if k != "died"}) + "\n")
     results = ctx.validate_traces("TraceBomb.tla", "TraceBomb.cfg", [tf])
     violations = []
     for r in results:
